@@ -1,5 +1,5 @@
 # replay of a bounded stand-in violation (C16): re-run native/c16_states.py
 import sys
-print('n=2 pure=False: quad_expectation(1,0.8) = [0.51137, 1.84019] on fock, [0.51137, 0.91954] on gaussian')
+print('n=2 pure=False gaussian: quad_expectation(1,0.8) = [-0.03272, 1.13719] on fock, [0.51137, 0.91954] on gaussian')
 print('REPLAY-VIOLATION')
 sys.exit(1)
